@@ -112,6 +112,7 @@ class Extraction:
         self.proofs = []      # (where, stmt text, proof text)
         self.matched = {}     # id -> matched source text
         self.tail = None      # fragment only: expression appended as the return value
+        self.splice = None    # fragment only: do not emit a fn; paste the text at /*@@SPLICE:<id>*/
 
 
 class Generated:
@@ -491,6 +492,7 @@ def expand(template_path, tree):
                 gen.line_origin[len(out_lines)] = origin
 
     outlines_seen = {}
+    splices = {}
 
     while i < len(lines):
         ln = lines[i]
@@ -534,6 +536,13 @@ def expand(template_path, tree):
                 elif real.get(name) != ty:
                     raise LostAnchor("shim %s: field `%s` is `%s` in /repo, contract expects `%s`" % (p, name, real.get(name), ty))
             gen.shims.append("%s :: %s {%s}" % (f, p, fields))
+        elif d.startswith("begin_fn:"):
+            span_name = d[9:].strip()
+            span_first = len(out_lines) + 1
+        elif d.startswith("end_fn"):
+            gen.fn_lines[span_name] = (span_first, len(out_lines))
+            gen.canary_fns.append(span_name)
+            gen.drops.append("%s: hand-written composition of spliced fragments (the composing control flow is an assumption, see unit header)" % span_name)
         elif d.startswith("verbatim:"):
             oid = d[9:].strip()
             emit("/*@@VERBATIM:%s*/" % oid)
@@ -567,8 +576,8 @@ def expand(template_path, tree):
                 body = body[ma[0].start():mb[0].end()]
                 gen.drops.append("%s: only the statement range `%s` .. `%s` is extracted (fragment); the rest of the function is not verified" %
                                  (fn_disp, ex.fragment[0][:50], ex.fragment[1][:50]))
-                if not ex.sig:
-                    raise SpecError("fragment needs a sig:")
+                if not ex.sig and not ex.splice:
+                    raise SpecError("fragment needs a sig: or splice:")
             src_line = src.count("\n", 0, item.open) + 1
             body = _strip_comments(body)
             body = _strip_log_stmts(body, gen.drops, fn_disp)
@@ -582,6 +591,11 @@ def expand(template_path, tree):
                 return "/*@@%s*/" % cl.id
 
             body = _insert_loop_specs(body, ex, emit_clause_marker)
+            if ex.splice:
+                splices[ex.splice] = body
+                gen.functions.append(fn_disp + " [fragment " + ex.splice + "]")
+                i += 1
+                continue
             head = _header(item, ex)
             if ex.sig:
                 gen.drops.append("%s: signature substituted: `%s` -> `%s`" % (fn_disp, re.sub(r"\s+", " ", item.header.strip()), ex.sig.strip()))
@@ -621,6 +635,12 @@ def expand(template_path, tree):
             raise SpecError("verbatim %s has no outline" % m.group(1))
         return re.sub(r"\s*\n\s*", " ", outlines_seen[m.group(1)])
     text = re.sub(r"/\*@@VERBATIM:([\w.]+)\*/", _vb, text)
+
+    def _sp(m):
+        if m.group(1) not in splices:
+            raise SpecError("splice %s has no fragment" % m.group(1))
+        return re.sub(r"\s*\n\s*", " ", splices[m.group(1)])
+    text = re.sub(r"/\*@@SPLICE:([\w.]+)\*/", _sp, text)
     # resolve clause markers to line numbers
     final = []
     for n, ln in enumerate(text.split("\n"), 1):
@@ -699,6 +719,8 @@ def _parse_extract_directive(ex, e):
         ex.ret = e[4:].strip()
     elif e.startswith("tail:"):
         ex.tail = e[5:].strip()
+    elif e.startswith("splice:"):
+        ex.splice = e[7:].strip()
     elif e == "noret":
         ex.noret = True
     elif e.startswith("fragment:"):
